@@ -5,6 +5,7 @@ mod asm;
 mod proj;
 mod streams;
 mod fstreams;
+mod cfile;
 
 use fbh::report::Report;
 use fbh::Ctx;
